@@ -160,6 +160,7 @@ class Site:
     loops: tuple[ast.AST, ...]  # enclosing loops / comprehensions (outermost first)
     func: Func
     shadow: frozenset[str] = frozenset()  # comprehension/lambda-bound names visible at the site
+    flow: "Flow | None" = field(default=None, repr=False, compare=False)  # the analysis this site belongs to
 
     @property
     def line(self) -> int:
@@ -366,6 +367,9 @@ class Flow:
         # sites of the helper are sites of this flow (extract-function refactorings do not change what a rule sees)
         self.inline_calls = inline_calls if repo is not None else 0
         self._tail_stack: list[bool] = []
+        # helpers the reference tree does not have and that could NOT be walked as part of this function (star arguments, recursion, size):
+        # what they establish is unknown, so a guard that is not found may well be established inside them
+        self.opaque_new: list[str] = []
         self.inline_known = False  # set by a rule that wants reference-tree helpers inlined as well
         self._inline_stack: list[str] = []
         self._ret_stack: list[list[tuple[State, ast.expr | None]]] = []
@@ -827,7 +831,7 @@ class Flow:
     # ------------------------------------------------------------------ expressions
     def _record(self, node: ast.AST, st: State, extra: tuple[Fact, ...]) -> None:
         shadow = frozenset(set().union(*self._shadow)) if self._shadow else frozenset()
-        self.sites.append(Site(node, self._stmt, st.copy(), extra, tuple(self._loops), self._site_func or self.func, shadow))
+        self.sites.append(Site(node, self._stmt, st.copy(), extra, tuple(self._loops), self._site_func or self.func, shadow, self))
 
     def _extra_facts(self, cond: ast.expr, polarity: bool, st: State, line: int) -> tuple[Fact, ...]:
         env = st.common_env()
@@ -1110,15 +1114,41 @@ class Flow:
             return None  # a function of the reference tree: the rules know it as it is
         node = callee.node
         a = node.args
-        if a.vararg or a.kwarg or any(isinstance(x, ast.Starred) for x in call.args) or any(k.arg is None for k in call.keywords):
+
+        def opaque() -> None:
+            if callee.key not in self.opaque_new:
+                self.opaque_new.append(callee.key)
             return None
+
+        if any(isinstance(x, ast.Starred) for x in call.args):
+            # `f(a, *xs)` with a known length of xs (`len(xs) == n` on every path) is `f(a, xs[0], .., xs[n-1])`
+            flat: list[ast.expr] = []
+            for x in call.args:
+                if not isinstance(x, ast.Starred):
+                    flat.append(x)
+                    continue
+                n_known = None
+                for fa in st.common_facts().values():
+                    if fa.kind == "atom":
+                        m_ = norm.match(norm.T("len($x) == $n"), fa.expr, {"x": self._expand(x.value, st.alts[0]) if st.alts else x.value})
+                        if m_ is None:
+                            m_ = norm.match(norm.T("len($x) == $n"), fa.expr, {"x": x.value})
+                        if m_ is not None and isinstance(m_["n"], ast.Constant) and isinstance(m_["n"].value, int) and 0 <= m_["n"].value <= 6:
+                            n_known = m_["n"].value
+                if n_known is None:
+                    return opaque()
+                flat.extend(ast.Subscript(copy.deepcopy(x.value), ast.Constant(i_), ast.Load()) for i_ in range(n_known))
+            call = ast.copy_location(ast.Call(call.func, flat, list(call.keywords)), call)
+            ast.fix_missing_locations(call)
+        if a.vararg or a.kwarg or any(k.arg is None for k in call.keywords):
+            return opaque()
         if any(isinstance(n, (ast.Yield, ast.YieldFrom, ast.Await, ast.Global, ast.Nonlocal)) for n in ast.walk(node)):
-            return None
+            return opaque()
         n_stmts = sum(1 for n in ast.walk(node) if isinstance(n, ast.stmt))
         if n_stmts > 60:
-            return None
+            return opaque()
         if any(isinstance(n, ast.Call) and isinstance(n.func, ast.Name) and n.func.id == callee.name for n in ast.walk(node)):
-            return None  # directly recursive
+            return opaque()  # directly recursive
         params = [x.arg for x in (*a.posonlyargs, *a.args)]
         decos = callee.decorators()
         static = any("staticmethod" in d for d in decos)
@@ -1151,7 +1181,6 @@ class Flow:
         stored, _ = stored_names(node.body)
         nested = {n.name for n in ast.walk(node) if isinstance(n, (ast.FunctionDef, ast.ClassDef)) and n is not node}
         simple = lambda e: isinstance(e, (ast.Name, ast.Constant)) or (isinstance(e, ast.Attribute) and simple(e.value))  # noqa: E731
-        direct = {p_: v for p_, v in bound.items() if p_ not in stored and simple(v)}
         # the callee's own locals: names it binds (a free variable of a closure that is only mutated, `pending.clear()`, stays the caller's)
         binds_: set[str] = set()
 
@@ -1170,7 +1199,11 @@ class Flow:
 
         for b_ in node.body:
             _binds(b_)
-        own = (binds_ | (set(stored) & set(bound))) if callee.parent is not None else set(stored)
+        # a parameter the callee never re-binds IS the argument (also when the callee mutates it: `del state[name]` in a helper changes the
+        # caller's dictionary), provided the argument is a plain name / attribute path
+        direct = {p_: v for p_, v in bound.items() if p_ not in binds_ and simple(v) and not isinstance(v, ast.Constant) or (
+            p_ not in stored and simple(v))}
+        own = binds_ if callee.parent is not None else (binds_ | (set(stored) - set(direct)))
         ren = {n: f"__{tag}_{n}__" for n in (own | set(bound)) - set(direct) - nested}
 
         class R(ast.NodeTransformer):
